@@ -1137,6 +1137,19 @@ expand_manifests(string &expr, bool expand_undefined,
           if (resume == result.size() || isdigit(result[resume]) ||
               (resume > 0 && result[resume - 1] == CPPManifest::no_expand_mark)) {
             resume = result.size();
+          } else {
+            // Letters at the end of a preprocessing number are not a name
+            // either: the E8 of 0x03'E8, the f of 1.5f.
+            size_t num = resume;
+            while (num > 0 && (isalnum(result[num - 1]) || result[num - 1] == '_' ||
+                               result[num - 1] == '.' || result[num - 1] == '\'')) {
+              --num;
+            }
+            if (num < resume &&
+                (isdigit(result[num]) ||
+                 (result[num] == '.' && isdigit(result[num + 1])))) {
+              resume = result.size();
+            }
           }
           expr = expr.substr(0, q) + result + expr.substr(p);
           p = q + resume;
